@@ -124,7 +124,8 @@ def run(rep, tier):
                       "continued (flag o), forward from the rdf maximum to the end and backward to the start; Boltzmann inversion -kBT ln(P/norm), "
                       "norm in {1, x^2, sin x}, nan/u where P <= dist_min; linearop a*y+b (errors a*err); shift y - zero with zero the minimum over "
                       "flagged points (bonded) / last point (non-bonded); smoothing (1/4,1/2,1/4) interior and (2y0+y1)/3 ends, only for flag i; "
-                      "integration by the trapezoid recurrence; scaling y * (p1 + (p2 - p1) w) with w linear from 0 at the first to 1 at the last point")
+                      "integration by the trapezoid recurrence; scaling y * (p1 + (p2 - p1) w) with w linear from 0 at the first to 1 at the last point; extrapolation functions f(x0, y0, m, x) continue "
+                      "the table: f(x0) = y0 and f'(x0) = m, applied outside the flagged region with the anchor point and a finite-difference slope")
     rep.rule("R19.2", "pass-through: the x array and the flag array written by saveto_table* are the ones filled by readin_table* (grid and flags preserved)")
     scripts = ["update_ibi_pot.pl", "dist_boltzmann_invert.pl", "table_linearop.pl", "potential_shift.pl", "table_smooth.pl", "table_integrate.pl"]
     rep.units = [front.repo(DIR + s_) for s_ in scripts]
@@ -137,8 +138,9 @@ def run(rep, tier):
     check_smooth(rep)
     check_integrate(rep)
     check_scale(rep)
-    rep.units = list(rep.units) + [front.repo(DIR + "table_scale.pl")]
-    rep.assumptions += ["shell wrappers (csg_table, csg_call), table_combine/extrapolate and csg_resample's differentiation are not covered",
+    check_extrapolate(rep)
+    rep.units = list(rep.units) + [front.repo(DIR + "table_scale.pl"), front.repo(DIR + "table_extrapolate.pl")]
+    rep.assumptions += ["shell wrappers (csg_table, csg_call), table_combine (its operation is an eval of a run-time string) and csg_resample's differentiation are not covered",
                         "integration and differentiation being mutually inverse up to discretisation error is numerical: not decided",
                         "CsgFunctions.pm's readin/saveto column order is trusted (its parsing loops are not folded)"]
 
@@ -575,3 +577,75 @@ def check_scale(rep):
         why = "the interpolation weight is %s: it is %s at the first point (required 0, i.e. exactly prefactor1) and %s at the last point (required 1, i.e. exactly prefactor2)" % (w, w0, w1)
     rep.check(ok, "R19.1", "scale|formula", "y' = y (p1 + (p2 - p1) w), w = 0 at the first and 1 at the last point, linear in between", "table_scale.pl: " + why, sc.loc, sample=True)
     passthrough(rep, sc, ro["x"], ro["flag"])
+
+
+# ------------------------------------------------------------------------------------------------ table_extrapolate.pl
+def check_extrapolate(rep):
+    main, subs = PF.load(DIR + "table_extrapolate.pl")
+    loc = front.repo(DIR + "table_extrapolate.pl")
+    x0, y0, m, x = [Fn("elem")(S("@_"), sp.Integer(k)) for k in range(4)]
+    n = 0
+    for name, tree in subs.items():
+        fo = PF.PFold(tree, subs)
+        fo.args = [x0, y0, m, x]
+        try:
+            fo.run()
+        except Exception as e:
+            rep.broken("R19.1", "table_extrapolate.pl: sub %s cannot be folded (%s)" % (name, e))
+            continue
+        if len(fo.returns) != 1 or isinstance(fo.returns[0][0], tuple) or fo.returns[0][0] is None:
+            continue                                  # not a closed-form extrapolation function
+        f = fo.returns[0][0]
+        if not (f.has(y0)):
+            continue
+        n += 1
+        const = not f.has(x)
+        at0 = sp.simplify(f.subs(x, x0) - y0)
+        slope = sp.simplify(sp.diff(f, x).subs(x, x0) - (0 if const else m))
+        rep.check(at0 == 0 and slope == 0, "R19.1", "extrapolate|" + name, "f(x0) = y0 and f'(x0) = %s" % ("0" if const else "m"),
+                  "table_extrapolate.pl: %s(x0, y0, m, x) = %s gives f(x0) - y0 = %s and f'(x0) - m = %s: the extrapolated branch does not continue the table at the anchor point" % (
+                      name, str(f)[:160], at0, slope), loc, sample=(name == "extrapolate_linear"))
+    rep.floor("R19.1", n, 4, "closed-form extrapolation functions in table_extrapolate.pl")
+    sc = Script(rep, "table_extrapolate.pl")
+    ro = roles(sc)
+    X, Y = ro["x"], ro["y"]
+    st = [e for e in sc.stores(Y) if str(getattr(e["value"], "func", "")).startswith("call_") and len(e["value"].args) in (4, 5)]
+    ok, why = len(st) == 2 and ro["yout"] == Y, "expected the two extrapolation sweeps (left and right), found %d" % len(st)
+    dirs = set()
+    for e in st if ok else []:
+        a0, a1, g, a3 = e["value"].args[:4]
+        i = e["idx"][0]
+        anchor = a0.args[1] if str(getattr(a0, "func", "")) == "elem" and str(a0.args[0]) == "@" + X else None
+        good = anchor is not None and a1 == el(Y, anchor) and a3 == el(X, i)
+        lid = sc.loop_of(e)
+        b = sc.bounds(lid) if lid else None
+        inner = PF.inner(e)
+        good = good and b is not None and not inner["guards"] and not inner["not"] and ((b[2] == -1 and sp.simplify(b[0] - (anchor - 1)) == 0 and b[1] == 0) or
+                                                                                      (b[2] == 1 and sp.simplify(b[0] - (anchor + 1)) == 0 and is_last(b[1], ro)))
+        if good:
+            dirs.add(b[2])
+            # the slope handed over: 0 for 'constant', otherwise a difference quotient of the table through the anchor point
+            gs = [g_ for g_ in sp.preorder_traversal(g) if isinstance(g_, sp.Mul) or isinstance(g_, sp.Pow)]
+            quot = False
+            for p_, q_ in [(anchor + S("$avgpoints"), anchor), (anchor, anchor - S("$avgpoints"))]:
+                dq = (el(Y, p_) - el(Y, q_)) / (el(X, p_) - el(X, q_))
+                quot = quot or any(sp.simplify(sub_ - dq) == 0 for sub_ in _subterms(g))
+            good = quot
+        if not good:
+            ok, why = False, "the sweep at line %s calls the extrapolation function with (%s, %s, %s, %s) over %s" % (e["line"], a0, a1, str(g)[:80], a3, tuple(map(str, b)) if b else "?")
+            break
+    if ok and dirs != {1, -1}:
+        ok, why = False, "the two sweeps do not run leftwards from the first and rightwards from the last flagged point"
+    rep.check(ok, "R19.1", "extrapolate|sweeps", "points left of the first / right of the last flagged point get f(x_anchor, y_anchor, slope, x_i)", "table_extrapolate.pl: " + why, sc.loc, sample=True)
+    passthrough(rep, sc, ro["x"], ro["flag"])
+
+
+def _subterms(v):
+    out = []
+    stack = [v]
+    while stack:
+        t = stack.pop()
+        out.append(t)
+        if isinstance(t, sp.Basic):
+            stack += list(t.args)
+    return out
